@@ -14,6 +14,8 @@ arbitrary external estimator (`fit` may depend on its previous state, `score`
 is `decision_function` or `predict_proba` on one row); the number of
 iterations `k`, the number of PSMs and of features are unbounded.
 
+(Continued in `Props/C12Scores.lean`: `_get_scores`, the scaler at prediction, re-fit invariance.)
+
 Not expressible as a theorem and covered by the correspondence run only:
 "a saved and re-loaded model predicts identically" (`pickle` is an external
 library; `Model.save`/`load_model` contain no logic of their own besides the
